@@ -151,7 +151,7 @@ def pes_valid(rng, header=None, fill=True):
         f["extension_w1"] = f["extension_w2"] = f["header_data"] = "None"
     return f
 
-def stanag_valid(rng, header=None):
+def stanag_valid(rng, header=None, avoid_k2=True):
     """a STANAG 4609 packet whose 36 bytes of metadata end exactly at byte 188 (adaptation-field stuffing)"""
     header = (rng.random() < 0.5) if header is None else header
     hd = rng.bytes_(5) if header else None
@@ -166,7 +166,10 @@ def stanag_valid(rng, header=None):
         f["header_data"] = hexb(hd)
     else:
         f["extension_w1"] = f["extension_w2"] = f["header_data"] = "None"
-    f["stanag_counter"] = str(rng.boundary(16))
+    c = rng.boundary(16)
+    if avoid_k2 and not header and (c >> 12) == 8:
+        c ^= 0x4000                                      # header-less + counter 0x8___: the K2 heuristic fires
+    f["stanag_counter"] = str(c)
     f["_unknown"] = str(rng.boundary(8))
     f["_unknown2"] = str(rng.boundary(16))
     f["time_us"] = str(rng.boundary(64))
@@ -522,3 +525,845 @@ def corr_C06(ctx):
             if b:
                 lines += [gen.H("STANAG4609", ["unpack " + hexb(m), "obs"]) for m in stanag_mutants(rng, b)]
     return lines
+
+# =================================================================================== oracles (real code)
+from ..core import pyval, parse_val
+
+def build(cls, fields):
+    """a real object of adapter class `cls` with the canonical field texts assigned"""
+    a = ADAPTERS[cls]
+    o = a.ctor()
+    for k, v in fields.items():
+        a.setf(o, k, pyval(parse_val(v)))
+    return o
+
+def ref_crc32_mpeg2(data):
+    """independent bit-serial CRC-32/MPEG-2 (ISO 13818-1 Annex A)"""
+    reg = 0xFFFFFFFF
+    for byte in data:
+        for i in range(7, -1, -1):
+            bit = (byte >> i) & 1
+            out = (reg >> 31) & 1
+            reg = (reg << 1) & 0xFFFFFFFF
+            if out ^ bit:
+                reg ^= 0x04C11DB7
+    return reg
+
+def ref_misb(data):
+    """independent MISB 0601 16-bit running sum over big-endian words"""
+    s = 0
+    for i in range(0, len(data), 2):
+        w = data[i] << 8
+        if i + 1 < len(data):
+            w |= data[i + 1]
+        s = (s + w) & 0xFFFF
+    return s
+
+def _o(x):
+    return "None" if x is None else (hexb(x) if isinstance(x, (bytes, bytearray)) else str(x))
+
+def ext_wf(e):
+    return len(e.ltw) in (0, 2) and len(e.piecewise) in (0, 3) and len(e.seamless_splice) in (0, 5)
+
+def ext_expected(e):
+    """bytes of the extension: ISO layout, except that the library's length byte also counts itself
+    (see notes/mpeg.md, observation E1) -- body compared with the Spec, length byte with the code's convention"""
+    r = _spec([gen.F("spec.Ext.encode", _o(e.ltw or None), _o(e.piecewise or None), _o(e.seamless_splice or None))])[0]
+    iso = bytes.fromhex(r[4:])
+    return bytes([iso[0] + 1]) + iso[1:]
+
+def af_wf(af):
+    """every part absent or of its size, flags not set without their part, everything fits one byte"""
+    if len(af.pcr) not in (0, 6) or len(af.opcr) not in (0, 6):
+        return False
+    if not (0 <= af.splice_countdown <= 255) or len(af.private_data) > 255 or not (0 <= af.length <= 255):
+        return False
+    if af.adaption_extension is not None and not ext_wf(af.adaption_extension):
+        return False
+    if (af.pcr_flag and not af.pcr) or (af.opcr_flag and not af.opcr) or (af.splicing_flag and af.splice_countdown == 0) \
+       or (af.transpart_flag and not af.private_data) or (af.extension_flag and af.adaption_extension is None):
+        return False
+    return af_datalen(af) <= 255
+
+def af_datalen(af):
+    n = 1 + len(af.pcr) + len(af.opcr) + (1 if af.splice_countdown > 0 else 0)
+    n += (1 + len(af.private_data)) if af.private_data else 0
+    if af.adaption_extension is not None:
+        e = af.adaption_extension
+        n += 2 + len(e.ltw) + len(e.piecewise) + len(e.seamless_splice)
+    return n
+
+def af_expected(af):
+    """Spec layout of the adaptation field of a well-formed object (before it is packed)"""
+    ext = ext_expected(af.adaption_extension) if af.adaption_extension is not None else None
+    stuffing = max(0, af.length - af_datalen(af))
+    r = _spec([gen.F("spec.AF.encode", B(af.discontinutiy), B(af.random_access), B(af.es_priority),
+                     _o(bytes(af.pcr) or None), _o(bytes(af.opcr) or None),
+                     _o(af.splice_countdown if af.splice_countdown > 0 else None),
+                     _o(bytes(af.private_data) or None), _o(ext), str(stuffing))])[0]
+    return bytes.fromhex(r[4:])
+
+def af_snapshot(af):
+    if af is None:
+        return None
+    e = af.adaption_extension
+    return (bool(af.discontinutiy), bool(af.random_access), bool(af.es_priority), bytes(af.pcr), bytes(af.opcr),
+            af.splice_countdown, bytes(af.private_data),
+            None if e is None else (bytes(e.ltw), bytes(e.piecewise), bytes(e.seamless_splice)))
+
+def af_flags_ok(af):
+    e = af.adaption_extension
+    return (af.pcr_flag == bool(af.pcr) and af.opcr_flag == bool(af.opcr) and af.splicing_flag == (af.splice_countdown > 0)
+            and af.transpart_flag == bool(af.private_data) and af.extension_flag == (e is not None)
+            and (e is None or (e.ltw_flag == bool(e.ltw) and e.piecewise_rate_flag == bool(e.piecewise)
+                               and e.seamless_splice_flag == bool(e.seamless_splice))))
+
+def hdr_wf(p):
+    return (0 <= p.sync < 256 and 0 <= p.pid < 8192 and p.transport_priority in (0, 1) and 0 <= p.tsc < 4
+            and 0 <= p.adaption_ctrl < 4 and 0 <= p.continuitycounter < 16)
+
+def hdr_expected(p):
+    r = _spec([gen.F("spec.TS.header", str(p.sync), B(p.tei), B(p.pusi), str(p.transport_priority), str(p.pid),
+                     str(p.tsc), str(p.adaption_ctrl), str(p.continuitycounter))])[0]
+    return bytes.fromhex(r[4:])
+
+def check_ext(args):
+    """MPEGAdaptionExtension: layout, round trip, re-encode"""
+    import AcraNetwork.MPEGTS as m
+    e = build("MPEGAdaptionExtension", args["fields"])
+    if not ext_wf(e):
+        return None
+    exp = ext_expected(e)
+    parts = (bytes(e.ltw), bytes(e.piecewise), bytes(e.seamless_splice))
+    b = e.pack()
+    if b != exp:
+        return "MPEGAdaptionExtension.pack emits %s, the layout is %s" % (hexb(b), hexb(exp))
+    q = build("MPEGAdaptionExtension", args.get("prior", {}))
+    used = q.unpack(b + bytes.fromhex(args.get("tail", "")))
+    if (bytes(q.ltw), bytes(q.piecewise), bytes(q.seamless_splice)) != parts or used != len(b):
+        return "MPEGAdaptionExtension round trip changes the parts: %r -> %r (used %d of %d)" % (
+            parts, (q.ltw, q.piecewise, q.seamless_splice), used, len(b))
+    if (q.ltw_flag, q.piecewise_rate_flag, q.seamless_splice_flag) != tuple(bool(x) for x in parts):
+        return "MPEGAdaptionExtension flags after decode do not say which parts are present"
+    if q.pack() != b:
+        return "MPEGAdaptionExtension re-encode of the decoded object differs"
+    return None
+
+def check_af(args):
+    """MPEGAdaption: Spec layout, length byte = number of bytes that follow, round trip, re-encode"""
+    af = build("MPEGAdaption", args["fields"])
+    if not af_wf(af):
+        return None
+    exp = af_expected(af)
+    snap = af_snapshot(af)
+    b = af.pack()
+    if b != exp:
+        return "MPEGAdaption.pack emits %s, the ISO 13818-1 layout is %s" % (hexb(b), hexb(exp))
+    if b[0] != len(b) - 1:
+        return "adaptation_field_length byte is %d but %d bytes follow it" % (b[0], len(b) - 1)
+    q = build("MPEGAdaption", args.get("prior", {}))
+    q.unpack(b)
+    if af_snapshot(q) != snap:
+        return "MPEGAdaption round trip changes the field values: %r -> %r" % (snap, af_snapshot(q))
+    if q.length != b[0] or not af_flags_ok(q):
+        return "MPEGAdaption decoded length/flags inconsistent with the parts"
+    if q.pack() != b:
+        return "MPEGAdaption re-encode of the decoded object differs"
+    return None
+
+def check_ts_packet(args):
+    """MPEGPacket: 188 bytes when the parts fit, ISO header, adaptation length = bytes that follow,
+    payload starts where the header says, round trip, re-encode"""
+    p = build("MPEGPacket", args["fields"])
+    af = p.adaption_field
+    if not hdr_wf(p) or (af is not None and not af_wf(af)):
+        return None
+    afc = p.adaption_ctrl
+    payload = bytes(p.payload)
+    if afc in (2, 3):
+        afb = af_expected(af) if af is not None else b"\x00"
+    else:
+        afb = b""
+    used = 4 + len(afb) + len(payload)
+    snap = af_snapshot(af) if afc in (2, 3) else None
+    hdr = hdr_expected(p)
+    b = p.pack()
+    if used > 188:
+        # outside the format: the error branch of the model (a longer packet is emitted); nothing to demand
+        return None
+    if len(b) != 188:
+        return "MPEGPacket.pack returns %d bytes for parts that occupy %d" % (len(b), used)
+    if b[:4] != hdr:
+        return "MPEGPacket header is %s, ISO 13818-1 layout gives %s" % (hexb(b[:4]), hexb(hdr))
+    if afc in (2, 3):
+        follow = len(afb) - 1
+        if b[4] != follow or b[4:4 + len(afb)] != afb:
+            return "adaptation_field_length byte is %d but %d adaptation bytes follow (emitted %s, layout %s)" % (
+                b[4], follow, hexb(b[4:4 + len(afb)]), hexb(afb))
+        start = 5 + b[4]
+    else:
+        start = 4
+    if b[start:start + len(payload)] != payload or b[start + len(payload):] != b"\xff" * (188 - used):
+        return "payload does not start at offset %d / stuffing is not 0xFF" % start
+    q = build("MPEGPacket", args.get("prior", {}))
+    q.unpack(b)
+    for k in ("sync", "pid", "tei", "pusi", "transport_priority", "tsc", "adaption_ctrl", "continuitycounter"):
+        if getattr(q, k) != getattr(p, k):
+            return "MPEGPacket round trip changes %s: %r -> %r" % (k, getattr(p, k), getattr(q, k))
+    exp_payload = {0: b"", 2: b""}.get(afc, payload + b"\xff" * (188 - used))
+    if afc in (1, 3) and bytes(q.payload) != exp_payload:
+        return "MPEGPacket round trip: payload %s decodes to %s" % (hexb(payload)[:60], hexb(q.payload)[:60])
+    if afc in (0, 2) and bytes(q.payload) != b"":
+        return "MPEGPacket with adaptation control %d decodes a payload" % afc
+    if afc in (2, 3) and af is not None:
+        if af_snapshot(q.adaption_field) != snap:
+            return "MPEGPacket round trip changes the adaptation field: %r -> %r" % (snap, af_snapshot(q.adaption_field))
+    if afc == 3 and af is None and q.adaption_field is not None:
+        return "a zero-length adaptation field decodes to an object"
+    # re-encode: AFC 2 needs an adaptation-field object (with None a single 0 byte is emitted and the 0xFF
+    # stuffing after it is decoded as flags and parts -- explicit precondition of C06, see notes/mpeg.md)
+    if afc in (1, 3) or (afc == 2 and not payload and af is not None) or (afc == 0 and not payload):
+        try:
+            b2 = q.pack()
+        except Exception as e:
+            return "re-encoding the decoded MPEGPacket raises %r" % (e,)
+        if b2 != b:
+            return "re-encoding the decoded MPEGPacket gives different bytes"
+    return None
+
+def check_ts_unpack_n(args):
+    """a buffer of N 188-byte packets decodes to N packets, in order, each as if decoded alone"""
+    import AcraNetwork.MPEGTS as m
+    pk = [build("MPEGPacket", f) for f in args["packets"]]
+    bs = [p.pack() for p in pk]
+    if any(len(b) != 188 for b in bs):
+        return None
+    buf = b"".join(bs)
+    ts = m.MPEGTS()
+    for junk in args.get("prior", []):
+        try:
+            ts.unpack(bytes.fromhex(junk))
+        except Exception:
+            pass
+    if ts.unpack(buf) is not True:
+        return "MPEGTS.unpack does not return True on %d valid packets" % len(bs)
+    if len(ts.blocks) != len(bs):
+        return "MPEGTS.unpack of %d x 188 bytes returns %d packets" % (len(bs), len(ts.blocks))
+    for i, b in enumerate(bs):
+        q = m.MPEGPacket()
+        q.unpack(b)
+        if not (ts.blocks[i] == q):
+            return "MPEGTS.unpack: packet %d differs from the packet decoded alone" % i
+    if ts.pack() != buf:
+        return "MPEGTS.pack of the decoded stream differs from the buffer"
+    return None
+
+def _pmt_expected_payload(p):
+    ds = "[" + ";".join("[%d;%s]" % (t.tag, hexb(t.data)) for t in p.descriptor_tags) + "]"
+    ss = "[" + ";".join("[%d;%d;%s]" % (s.streamtype, s.elementary_pid, hexb(s.elementary_stream_descriptors)) for s in p.streams) + "]"
+    r = _spec([gen.F("spec.PMT.payload", str(p.tableid), str(p.syntax_indicator), str(p.program_number), str(p.version),
+                     str(p.current_next_indicator), str(p.section), str(p.last_section), str(p.pcr_pid), ds, ss)])[0]
+    return bytes.fromhex(r[4:])
+
+def pmt_wf(p):
+    if not hdr_wf(p) or p.adaption_ctrl not in (1, 3):
+        return False
+    if p.adaption_field is not None and not af_wf(p.adaption_field):
+        return False
+    if not (0 <= p.tableid < 256 and p.syntax_indicator in (0, 1) and 0 <= p.program_number < 65536 and 0 <= p.version < 32
+            and p.current_next_indicator in (0, 1) and 0 <= p.section < 256 and 0 <= p.last_section < 256 and 0 <= p.pcr_pid < 8192):
+        return False
+    for t in p.descriptor_tags:
+        if t.tag is None or not (0 <= t.tag < 256) or len(t.data) > 255:
+            return False
+    for s in p.streams:
+        if not (0 <= s.streamtype < 256 and 0 <= s.elementary_pid < 8192 and len(s.elementary_stream_descriptors) < 4096):
+            return False
+    return True
+
+def check_pmt(args):
+    """MPEGPacketPMT: section layout, section_length / program_info_length laws, CRC big-endian after the
+    section, round trip (True = CRC verified), re-encode"""
+    p = build("MPEGPacketPMT", args["fields"])
+    if not pmt_wf(p):
+        return None
+    af = p.adaption_field
+    afb = b"" if p.adaption_ctrl == 1 else (af_expected(af) if af is not None else b"\x00")
+    exp_payload = _pmt_expected_payload(p)
+    used = 4 + len(afb) + len(exp_payload)
+    if used > 188:
+        return None
+    hdr = hdr_expected(p)
+    tags = [(t.tag, bytes(t.data)) for t in p.descriptor_tags]
+    streams = [(s.streamtype, s.elementary_pid, bytes(s.elementary_stream_descriptors)) for s in p.streams]
+    own = {k: getattr(p, k) for k, _ in PMT_OWN}
+    snap = af_snapshot(af) if p.adaption_ctrl == 3 else None
+    b = p.pack()
+    exp = hdr + afb + exp_payload + b"\xff" * (188 - used)
+    if b != exp:
+        return "MPEGPacketPMT.pack emits %s, the ISO 13818-1 layout is %s" % (hexb(b), hexb(exp))
+    sec = b[4 + len(afb) + 1:]
+    slen = ((sec[1] & 0xF) << 8) | sec[2]
+    if 3 + slen != len(exp_payload) - 1:
+        return "section_length %d does not count the %d bytes after it" % (slen, len(exp_payload) - 4)
+    pil = ((sec[10] & 0xF) << 8) | sec[11]
+    if pil != sum(2 + len(d) for _, d in tags) or p.program_info_len != pil:
+        return "program_info_length %d is not the size of the descriptor loop" % pil
+    if int.from_bytes(sec[3 + slen - 4:3 + slen], "big") != ref_crc32_mpeg2(sec[:3 + slen - 4]):
+        return "CRC_32 after the section is not CRC-32/MPEG-2 of the section"
+    q = build("MPEGPacketPMT", args.get("prior", {}))
+    r = q.unpack(b)
+    if r is not True:
+        return "MPEGPacketPMT.unpack of its own encoding returns %r" % (r,)
+    for k, v in own.items():
+        if getattr(q, k) != v:
+            return "MPEGPacketPMT round trip changes %s: %r -> %r" % (k, v, getattr(q, k))
+    if [(t.tag, bytes(t.data)) for t in q.descriptor_tags] != tags:
+        return "MPEGPacketPMT round trip changes the descriptors"
+    if [(s.streamtype, s.elementary_pid, bytes(s.elementary_stream_descriptors)) for s in q.streams] != streams:
+        return "MPEGPacketPMT round trip changes the streams"
+    if af_snapshot(q.adaption_field) != snap:
+        return "MPEGPacketPMT round trip changes the adaptation field"
+    try:
+        b2 = q.pack()
+    except Exception as e:
+        return "re-encoding the decoded MPEGPacketPMT raises %r" % (e,)
+    if b2 != b:
+        return "re-encoding the decoded MPEGPacketPMT gives different bytes"
+    return None
+
+def pes_wf(p):
+    if not hdr_wf(p) or p.adaption_ctrl not in (1, 3) or not (0 <= p.streamid < 256):
+        return False
+    if p.adaption_field is not None and not af_wf(p.adaption_field):
+        return False
+    hdr = p.extension_w1 is not None and p.extension_w2 is not None and p.header_data is not None
+    if hdr and not (0x80 <= p.extension_w1 <= 0x8F and 0 <= p.extension_w2 < 256 and len(p.header_data) < 256):
+        return False
+    if not hdr and not (p.extension_w1 is None and p.extension_w2 is None and p.header_data is None):
+        return False
+    return True
+
+def _pes_expected_payload(p):
+    hdr = p.extension_w1 is not None
+    h = "[%d;%d;%s]" % (p.extension_w1, p.extension_w2, hexb(p.header_data)) if hdr else "None"
+    r = _spec([gen.F("spec.PES.packet", str(p.streamid), h, hexb(p.pesdata))])[0]
+    return bytes.fromhex(r[4:])
+
+def check_pes(args):
+    """PES: layout, round trip with and without the optional header, re-encode.
+    Returns (message, tags) through the wrapper below."""
+    return _check_pes(args)[0]
+
+def _check_pes(args, cls="PES"):
+    p = build(cls, args["fields"])
+    if not pes_wf(p):
+        return None, {}
+    af = p.adaption_field
+    afb = b"" if p.adaption_ctrl == 1 else (af_expected(af) if af is not None else b"\x00")
+    has_hdr = p.extension_w1 is not None
+    data = bytes(p.pesdata)
+    exp_payload = _pes_expected_payload(p)
+    used = 4 + len(afb) + len(exp_payload)
+    if used > 188 or (has_hdr and used != 188) or len(exp_payload) < 9:
+        return None, {}      # the optional header is only recognisable in a PES packet that fills the TS packet
+    hdr = hdr_expected(p)
+    want = (p.streamid, p.extension_w1, p.extension_w2, None if p.header_data is None else bytes(p.header_data))
+    b = p.pack()
+    exp = hdr + afb + exp_payload + b"\xff" * (188 - used)
+    if b != exp:
+        return "%s.pack emits %s, the ISO 13818-1 layout is %s" % (cls, hexb(b), hexb(exp)), {"check": "layout"}
+    looks = (not has_hdr) and used == 188 and len(data) > 0 and (data[0] >> 4) == 8
+    tags = {"check": "roundtrip"}
+    if looks:
+        tags["heuristic"] = "optional_header"
+    q = build(cls, args.get("prior", {}))
+    try:
+        q.unpack(b)
+    except Exception as e:
+        return "%s.unpack of its own encoding raises %r" % (cls, e), tags
+    got = (q.streamid, q.extension_w1, q.extension_w2, None if q.header_data is None else bytes(q.header_data))
+    if got != want:
+        return "%s round trip changes (streamid, w1, w2, header_data): %r -> %r" % (cls, want, got), tags
+    if bytes(q.pesdata) != data + b"\xff" * (188 - used):
+        return "%s round trip: pesdata %s decodes to %s" % (cls, hexb(data)[:40], hexb(q.pesdata)[:40]), tags
+    try:
+        b2 = q.pack()
+    except Exception as e:
+        return "re-encoding the decoded %s raises %r" % (cls, e), tags
+    if used == 188 and b2 != b:
+        return "re-encoding the decoded %s gives different bytes" % cls, tags
+    return None, tags
+
+def check_stanag(args):
+    """STANAG 4609: metadata layout (key, tags, 64-bit time, MISB checksum), round trip, re-encode"""
+    p = build("STANAG4609", args["fields"])
+    if not pes_wf(p) or not (0 <= p.stanag_counter < 65536 and 0 <= p._unknown < 256 and 0 <= p._unknown2 < 65536
+                             and 0 <= p.time_us < 2 ** 64):
+        return None
+    r = _spec([gen.F("spec.STANAG.data", str(p.stanag_counter), str(p._unknown), str(p._unknown2), str(p.time_us))])[0]
+    data = bytes.fromhex(r[4:])
+    want = (p.stanag_counter, p._unknown, p._unknown2, p.time_us)
+    b = p.pack()
+    if bytes(p.pesdata) != data:
+        return "STANAG4609.pack builds metadata %s, the MISB 0601 layout is %s" % (hexb(p.pesdata), hexb(data))
+    if p.pid != 0x104:
+        return "STANAG4609.pack does not set the PID"
+    if data not in b:
+        return "the metadata is not inside the packet"
+    if not b.endswith(data):
+        return None                # not exactly filled: the checksum range of the decoder includes stuffing (outside the format)
+    q = build("STANAG4609", args.get("prior", {}))
+    try:
+        q.unpack(b)
+    except Exception as e:
+        return "STANAG4609.unpack of its own encoding raises %r (counter %#x, optional header %s)" % (
+            e, p.stanag_counter, "present" if p.extension_w1 is not None else "absent")
+    got = (q.stanag_counter, q._unknown, q._unknown2, q.time_us)
+    if got != want:
+        return "STANAG4609 round trip changes (counter, unknown, unknown2, time_us): %r -> %r" % (want, got)
+    try:
+        b2 = q.pack()
+    except Exception as e:
+        return "re-encoding the decoded STANAG4609 raises %r" % (e,)
+    if b2 != b:
+        return "re-encoding the decoded STANAG4609 gives different bytes"
+    return None
+
+ORACLES.update({"mpeg_ext": check_ext, "mpeg_af": check_af, "mpeg_ts_packet": check_ts_packet,
+                "mpeg_ts_unpack_n": check_ts_unpack_n, "mpeg_pmt": check_pmt, "mpeg_pes": check_pes,
+                "mpeg_stanag": check_stanag})
+
+def _prior(rng, valid):
+    """field assignments that put a used object into some other state before it decodes"""
+    return valid(rng) if rng.random() < 0.5 else {}
+
+def oracles_C06(ctx, hints):
+    rng = ctx.rng
+    fails, n = [], 0
+    mult = 4 if getattr(ctx, "search_mode", False) else 1
+    def run(name, fn, cls, argss, tagsfn=None):
+        nonlocal n
+        for args in argss:
+            n += 1
+            try:
+                w = fn(args)
+            except Exception as e:
+                w = "%s: unexpected %r" % (name, e)
+            if w:
+                tags = {"class": cls, "check": "roundtrip"}
+                if tagsfn:
+                    tags.update(tagsfn(args))
+                fails.append(Failure(name, args, w, tags))
+                return
+    run("mpeg_ext", check_ext, "MPEGAdaptionExtension",
+        [{"fields": ext_fields(rng, s), "prior": ext_fields(rng), "tail": rng.bytes_(rng.randrange(0, 4)).hex()} for s in range(8)])
+    run("mpeg_af", check_af, "MPEGAdaption",
+        [{"fields": af_fields(rng, s, stuffing=st)[0], "prior": _prior(rng, af_valid)}
+         for s in range(32) for st in (0, 1, rng.randrange(2, 150))] +
+        [{"fields": af_fields(rng, 16 | rng.randrange(16), ext_subset=e)[0]} for e in range(8)] +
+        [{"fields": af_fields(rng, 8 | rng.randrange(8), private_len=pl)[0]} for pl in (1, 2, 100, 200)])
+    pk = []
+    for s in range(32):
+        for st in (0, rng.randrange(1, 60)):
+            af, ln = af_fields(rng, s, stuffing=st, private_len=rng.choice([1, 3, 9]))
+            for afc in (2, 3):
+                f = hdr_fields(rng); f["adaption_ctrl"] = str(afc); f["adaption_field"] = obj("MPEGAdaption", af)
+                room = max(0, 183 - ln)
+                f["payload"] = hexb(rng.bytes_(rng.choice([room, room, max(0, room - 1), room // 2, 0]))) if afc == 3 else "x"
+                pk.append({"fields": f, "prior": _prior(rng, pkt_valid)})
+    for afc in (0, 1, 2, 3):
+        for n_ in (0, 1, 90, 183, 184):
+            f = hdr_fields(rng); f["adaption_ctrl"] = str(afc); f["payload"] = hexb(rng.bytes_(n_))
+            pk.append({"fields": f, "prior": _prior(rng, pkt_valid)})
+    pk += [{"fields": pkt_exact(rng)[0], "prior": _prior(rng, pkt_valid)} for _ in range(ctx.scale(60, 3000) * mult)]
+    run("mpeg_ts_packet", check_ts_packet, "MPEGPacket", pk)
+    run("mpeg_ts_unpack_n", check_ts_unpack_n, "MPEGTS",
+        [{"packets": [pkt_exact(rng)[0] for _ in range(k)], "prior": [rng.bytes_(188).hex(), (b"\x47" + rng.bytes_(375)).hex()][:rng.randrange(3)]}
+         for k in list(range(0, 7)) * ctx.scale(2, 40)])
+    run("mpeg_pmt", check_pmt, "MPEGPacketPMT",
+        [{"fields": pmt_valid(rng, nd, ns), "prior": _prior(rng, pmt_valid)} for nd in range(4) for ns in range(5)] +
+        [{"fields": pmt_valid(rng), "prior": _prior(rng, pmt_valid)} for _ in range(ctx.scale(30, 2000) * mult)])
+    # PES: with / without the optional header, filling the packet with and without adaptation stuffing
+    pes_args = [{"fields": pes_valid(rng, h, fill), "prior": _prior(rng, pes_valid)}
+                for h in (False, True) for fill in (True, False) for _ in range(ctx.scale(15, 800) * mult)]
+    pes_args.append({"fields": dict(K2_WITNESS)})
+    for first in range(0, 256, 16):
+        f = dict(K2_WITNESS); f["pesdata"] = hexb(bytes([first | 3]) + rng.bytes_(177))
+        pes_args.append({"fields": f})
+    seen_k2 = False
+    for args in pes_args:
+        n += 1
+        w, tags = _check_pes(args)
+        if w:
+            tags = dict(tags, **{"class": "PES"})
+            if tags.get("heuristic"):
+                if seen_k2:
+                    continue
+                seen_k2 = True
+            fails.append(Failure("mpeg_pes", args, w, tags))
+            if not tags.get("heuristic"):
+                break
+    run("mpeg_stanag", check_stanag, "STANAG4609",
+        [{"fields": stanag_valid(rng, h), "prior": _prior(rng, stanag_valid)} for h in (False, True) for _ in range(ctx.scale(12, 600) * mult)] +
+        [{"fields": dict(stanag_valid(rng), time_us=str(t))} for t in (0, 1, 2 ** 32 - 1, 2 ** 32, 2 ** 63, 2 ** 64 - 1)])
+    # K2 through the subclass: header-less STANAG packet whose counter is 0x8___ (first data byte 0x8_), exactly filled
+    run("mpeg_stanag", check_stanag, "STANAG4609",
+        [{"fields": dict(stanag_valid(rng, False), stanag_counter=str(c))} for c in (0x8000, 0x8FFF, 0x8123)],
+        tagsfn=lambda a: {"heuristic": "optional_header"})
+    ctx.count("oracle_evaluations", n)
+    return fails
+
+# =================================================================================== C07: PMT CRC, STANAG checksum
+def corr_C07(ctx):
+    rng = ctx.rng
+    lines = [gen.F("crc32mpeg2", hexb(b"123456789")), gen.F("crc32mpeg2", "x"), gen.F("checksum_stanag", "x")]
+    for n in list(range(0, 20)) + [183, 184, 400]:
+        lines.append(gen.F("crc32mpeg2", hexb(rng.bytes_(n))))
+        lines.append(gen.F("checksum_stanag", hexb(rng.bytes_(n))))
+    for fill in (0x00, 0xFF, 0x80):                           # sums that carry repeatedly / hit 0x0000 and 0xFFFF
+        for n in (1, 2, 3, 256, 257, 512, 514):
+            lines.append(gen.F("checksum_stanag", hexb(bytes([fill]) * n)))
+            lines.append(gen.F("crc32mpeg2", hexb(bytes([fill]) * (n % 64))))
+    lines.append(gen.F("checksum_stanag", hexb(b"\xff\xff" + b"\x00\x01")))
+    for _ in range(ctx.scale(4, 60)):                         # verifying decoders on every single-bit corruption
+        b = _packed("MPEGPacketPMT", pmt_valid(rng))
+        if b:
+            lines.append(gen.H("MPEGPacketPMT", ["unpack " + hexb(b), "obs"]))
+            lines += [gen.H("MPEGPacketPMT", ["unpack " + hexb(m)]) for m in _pmt_flips(b)[:: ctx.scale(5, 1)]]
+        b = _packed("STANAG4609", stanag_valid(rng))
+        if b:
+            lines += [gen.H("STANAG4609", ["unpack " + hexb(m)]) for m in _stanag_flips(b)[:: ctx.scale(3, 1)]]
+    return lines
+
+def _pmt_section_range(b):
+    start = 4 if (b[3] >> 4) & 3 == 1 else 5 + b[4]
+    sec = start + 1 + b[start]
+    slen = ((b[sec + 1] & 0xF) << 8) | b[sec + 2]
+    return sec, sec + 3 + slen
+
+def _pmt_flips(b):
+    lo, hi = _pmt_section_range(b)
+    out = []
+    for i in range(lo, hi):
+        for bit in range(8):
+            m = bytearray(b); m[i] ^= 1 << bit
+            out.append(bytes(m))
+    return out
+
+def _stanag_flips(b):
+    """every bit of pesdata[5:] of an exactly filled packet: key, length, tags, time, checksum"""
+    out = []
+    for i in range(len(b) - 31, len(b)):
+        for bit in range(8):
+            m = bytearray(b); m[i] ^= 1 << bit
+            out.append(bytes(m))
+    return out
+
+def check_pmt_crc(args):
+    """the CRC_32 bytes inside pack() are CRC-32/MPEG-2 (independent bit-serial implementation and the Lean
+    Spec) of the section bytes actually emitted; crc32mpeg2() itself agrees on the same bytes"""
+    import AcraNetwork.MPEG.PMT as pmt
+    p = build("MPEGPacketPMT", args["fields"])
+    if not pmt_wf(p):
+        return None
+    b = p.pack()
+    if len(b) != 188:
+        return None
+    lo, hi = _pmt_section_range(b)
+    prot, field = b[lo:hi - 4], int.from_bytes(b[hi - 4:hi], "big")
+    ref = ref_crc32_mpeg2(prot)
+    if field != ref:
+        return "PMT CRC field %#010x is not CRC-32/MPEG-2 of the %d protected bytes (%#010x)" % (field, len(prot), ref)
+    sp = _spec([gen.F("spec.crc32mpeg2", hexb(prot))])[0]
+    if sp != "ok:%d" % field:
+        return "PMT CRC field %#010x differs from the Lean Spec CRC (%s)" % (field, sp)
+    if pmt.crc32mpeg2(prot) != ref:
+        return "crc32mpeg2() differs from CRC-32/MPEG-2 on %s" % hexb(prot)
+    return None
+
+def check_crc_fn(args):
+    import AcraNetwork.MPEG.PMT as pmt
+    d = bytes.fromhex(args["data"])
+    if pmt.crc32mpeg2(d) != ref_crc32_mpeg2(d):
+        return "crc32mpeg2(%s) = %#010x, CRC-32/MPEG-2 is %#010x" % (hexb(d)[:80], pmt.crc32mpeg2(d), ref_crc32_mpeg2(d))
+    return None
+
+def check_pmt_flip(args):
+    """every single-bit corruption of the section (CRC-protected bytes and the CRC itself) is reported:
+    unpack returns False or raises"""
+    p = build("MPEGPacketPMT", args["fields"])
+    if not pmt_wf(p):
+        return None
+    b = p.pack()
+    if len(b) != 188:
+        return None
+    q = build("MPEGPacketPMT", {})
+    if q.unpack(b) is not True:
+        return "MPEGPacketPMT.unpack of an intact packet does not return True"
+    lo, hi = _pmt_section_range(b)
+    for i in range(lo, hi):
+        for bit in range(8):
+            m = bytearray(b); m[i] ^= 1 << bit
+            q = build("MPEGPacketPMT", {})
+            try:
+                r = q.unpack(bytes(m))
+            except Exception:
+                continue
+            if r is not False:
+                return "flipping bit %d of byte %d (section offset %d) of a PMT packet goes unreported (unpack returned %r)" % (bit, i, i - lo, r)
+    return None
+
+def check_stanag_sum(args):
+    """the checksum bytes inside pack() are the MISB 0601 16-bit sum of the protected bytes actually emitted"""
+    import AcraNetwork.MPEG.PES as pes
+    p = build("STANAG4609", args["fields"])
+    if not pes_wf(p) or not (0 <= p.stanag_counter < 65536 and 0 <= p._unknown < 256 and 0 <= p._unknown2 < 65536 and 0 <= p.time_us < 2 ** 64):
+        return None
+    b = p.pack()
+    d = bytes(p.pesdata)
+    i = b.find(d)
+    if i < 0 or len(d) != 36:
+        return "STANAG metadata not found in the packet"
+    prot, field = d[5:-2], int.from_bytes(d[-2:], "big")
+    if field != ref_misb(prot):
+        return "STANAG checksum field %#06x is not the MISB 0601 sum of the protected bytes (%#06x)" % (field, ref_misb(prot))
+    sp = _spec([gen.F("spec.misbChecksum", hexb(prot))])[0]
+    if sp != "ok:%d" % field:
+        return "STANAG checksum field %#06x differs from the Lean Spec checksum (%s)" % (field, sp)
+    return None
+
+def check_sum_fn(args):
+    import AcraNetwork.MPEG.PES as pes
+    d = bytes.fromhex(args["data"])
+    if pes.checksum_stanag(d) != ref_misb(d):
+        return "checksum_stanag(%s) = %#06x, MISB 0601 sum is %#06x" % (hexb(d)[:80], pes.checksum_stanag(d), ref_misb(d))
+    return None
+
+def check_stanag_flip(args):
+    """every single-bit corruption of pesdata[5:] (protected bytes and the checksum) makes unpack raise"""
+    p = build("STANAG4609", args["fields"])
+    b = p.pack()
+    q = build("STANAG4609", {})
+    try:
+        q.unpack(b)
+    except Exception:
+        return None                     # not a decodable packet (not exactly filled / K2): nothing to corrupt
+    for i in range(len(b) - 31, len(b)):
+        for bit in range(8):
+            m = bytearray(b); m[i] ^= 1 << bit
+            q = build("STANAG4609", {})
+            try:
+                q.unpack(bytes(m))
+            except Exception:
+                continue
+            return "flipping bit %d of metadata byte %d of a STANAG 4609 packet goes unreported" % (bit, i - (len(b) - 36))
+    return None
+
+ORACLES.update({"mpeg_pmt_crc": check_pmt_crc, "mpeg_crc_fn": check_crc_fn, "mpeg_pmt_flip": check_pmt_flip,
+                "mpeg_stanag_sum": check_stanag_sum, "mpeg_sum_fn": check_sum_fn, "mpeg_stanag_flip": check_stanag_flip})
+
+def _first(fails, name, cls, check, fn, argss, ctx):
+    k = 0
+    for args in argss:
+        k += 1
+        w = fn(args)
+        if w:
+            fails.append(Failure(name, args, w, {"class": cls, "check": check}))
+            break
+    ctx.count("oracle_evaluations", k)
+
+def oracles_C07(ctx, hints):
+    rng = ctx.rng
+    fails = []
+    mult = 4 if getattr(ctx, "search_mode", False) else 1
+    datas = [b"123456789", b"", b"\x00", b"\xff" * 4, b"\x80" + b"\x00" * 7] + [rng.bytes_(rng.randrange(0, 200)) for _ in range(ctx.scale(60, 3000))]
+    _first(fails, "mpeg_crc_fn", "MPEGPacketPMT", "crc_std", check_crc_fn, [{"data": d.hex()} for d in datas], ctx)
+    sums = [b"", b"\x01", b"\xff\xff", b"\xff\xff\x00\x01", b"\xff" * 513, b"\x80\x00" * 2] + [rng.bytes_(rng.randrange(0, 70)) for _ in range(ctx.scale(60, 3000))]
+    _first(fails, "mpeg_sum_fn", "STANAG4609", "checksum_std", check_sum_fn, [{"data": d.hex()} for d in sums], ctx)
+    _first(fails, "mpeg_pmt_crc", "MPEGPacketPMT", "crc_std", check_pmt_crc,
+           [{"fields": pmt_valid(rng)} for _ in range(ctx.scale(40, 2000) * mult)], ctx)
+    _first(fails, "mpeg_stanag_sum", "STANAG4609", "checksum_std", check_stanag_sum,
+           [{"fields": stanag_valid(rng)} for _ in range(ctx.scale(40, 2000) * mult)] +
+           [{"fields": dict(stanag_valid(rng), time_us=str(t))} for t in (0, 2 ** 64 - 1, 0xFFFF0000FFFF0000, 0x00FF00FF00FF00FF)], ctx)
+    _first(fails, "mpeg_pmt_flip", "MPEGPacketPMT", "detects_flip", check_pmt_flip,
+           [{"fields": pmt_valid(rng)} for _ in range(ctx.scale(6, 200) * mult)], ctx)
+    _first(fails, "mpeg_stanag_flip", "STANAG4609", "detects_flip", check_stanag_flip,
+           [{"fields": stanag_valid(rng)} for _ in range(ctx.scale(10, 400) * mult)], ctx)
+    return fails
+
+# =================================================================================== C09: sync byte, PES prefix, STANAG key/tags/checksum
+def _c09_buffers(ctx):
+    rng = ctx.rng
+    out = []
+    for _ in range(ctx.scale(5, 60)):
+        b = _packed("MPEGPacket", pkt_exact(rng)[0])
+        if b:
+            out.append(("MPEGPacket", b))
+            for v in (0x00, 0x46, 0x48, 0xC7, 0xFF):
+                out.append(("MPEGPacket", bytes([v]) + b[1:]))
+            for n in (0, 1, 3, 4, 5, 6, 187, 189):
+                out.append(("MPEGPacket", (b + b"\x00")[:n]))
+            for afc in range(4):
+                for n in (4, 5, 6):
+                    out.append(("MPEGPacket", (b[:3] + bytes([(b[3] & 0xCF) | (afc << 4)]) + b[4:])[:n]))
+        for hdr in (False, True):
+            b = _packed("PES", pes_valid(rng, hdr, True))
+            if b:
+                out.append(("PES", b))
+                out += [("PES", m) for m in pes_mutants(rng, b)]
+                start = 4 if (b[3] >> 4) & 3 == 1 else 5 + b[4]
+                for n in range(start, min(len(b), start + 11)):
+                    out.append(("PES", b[:n]))
+            b = _packed("STANAG4609", stanag_valid(rng, hdr))
+            if b:
+                out.append(("STANAG4609", b))
+                out += [("STANAG4609", m) for m in stanag_mutants(rng, b, every_bit=(ctx.tier == "thorough"))]
+                for n in range(len(b) - 37, len(b)):
+                    out.append(("STANAG4609", b[:n]))
+    return out
+
+def corr_C09(ctx):
+    return [gen.H(cls, ["unpack " + hexb(b), "obs"]) for cls, b in _c09_buffers(ctx)]
+
+def ref_pkt_accepts(b):
+    if len(b) < 4 or b[0] != 0x47:
+        return False, None
+    afc = (b[3] >> 4) & 3
+    if afc == 3:
+        if len(b) < 5:
+            return False, None
+        return True, (b[5 + b[4]:] if b[4] > 0 else b[5:])
+    return True, (b[4:] if afc == 1 else b"")
+
+def ref_pes_accepts(b):
+    ok, pl = ref_pkt_accepts(b)
+    if not ok or len(pl) < 6 or pl[0:3] != b"\x00\x00\x01" or len(pl) < 9:
+        return False, None
+    ln = int.from_bytes(pl[4:6], "big")
+    if (pl[6] >> 4) == 8 and len(pl) == ln + 6:
+        return True, pl[9 + pl[8]:]
+    return True, pl[6:]
+
+def ref_stanag_accepts(b):
+    ok, d = ref_pes_accepts(b)
+    if not ok:
+        return False
+    pid = ((b[1] & 0x1F) << 8) | b[2]
+    KEY = bytes.fromhex("060e2b34020b01010e01030101000000")
+    return (pid == 0x104 and len(d) >= 36 and d[5:21] == KEY and d[22] == 2 and d[23] == 8
+            and ref_misb(d[5:-2]) == int.from_bytes(d[34:36], "big"))
+
+def check_mpeg_accept(args):
+    """the decoders accept a buffer exactly when the documented checks hold (sync byte 0x47; PES start-code
+    prefix 000001; STANAG PID 0x104, universal key, data tag 2, tag length 8, MISB checksum)"""
+    cls, b = args["cls"], bytes.fromhex(args["buf"])
+    o = build(cls, {})
+    try:
+        ADAPTERS[cls].unpack(o, b)
+        ok = True
+    except Exception:
+        ok = False
+    if cls == "MPEGPacket":
+        should, pl = ref_pkt_accepts(b)
+        if ok and should and bytes(o.payload) != pl:
+            return "MPEGPacket.unpack accepted the buffer but its payload is not the bytes after the header/adaptation field"
+    elif cls == "PES":
+        should, d = ref_pes_accepts(b)
+        if ok and should and bytes(o.pesdata) != d:
+            return "PES.unpack accepted the buffer but pesdata is truncated or padded"
+    else:
+        should = ref_stanag_accepts(b)
+    if ok != should:
+        return "%s.unpack %s a buffer that %s its sync/prefix/key/tag/checksum checks (%s…)" % (
+            cls, "accepted" if ok else "rejected", "fails" if not should else "passes", hexb(b)[:24])
+    return None
+
+ORACLES["mpeg_accept"] = check_mpeg_accept
+
+def oracles_C09(ctx, hints):
+    fails, seen, n = [], set(), 0
+    for cls, b in _c09_buffers(ctx):
+        n += 1
+        args = {"cls": cls, "buf": b.hex()}
+        w = check_mpeg_accept(args)
+        if w and cls not in seen:
+            seen.add(cls)
+            fails.append(Failure("mpeg_accept", args, w, {"class": cls, "check": "accept_exact"}))
+    ctx.count("oracle_evaluations", n)
+    return fails
+
+# =================================================================================== C15: PTS
+def _f2b(x):
+    return struct.unpack(">Q", struct.pack(">d", x))[0]
+
+def pts_ticks(ctx):
+    rng = ctx.rng
+    t = [0, 1, 2, 26, 27, 2 ** 15 - 1, 2 ** 15, 2 ** 15 + 1, 2 ** 30 - 1, 2 ** 30, 2 ** 30 + 1, 2 ** 31, 2 ** 32, 2 ** 33 - 2, 2 ** 33 - 1,
+         16842600, 90000, 89999, 90001, 45000, 3 * 2 ** 30, 7 * 2 ** 30 + 0x7FFF]
+    t += [(1 << k) - 1 for k in range(1, 34)] + [1 << k for k in range(0, 33)]
+    t += [rng.randrange(2 ** 33) for _ in range(ctx.scale(1500, 100000))]
+    return t
+
+def _field(p):
+    return 0x2100010001 | ((p & 0x7FFF) << 1) | (((p >> 15) & 0x7FFF) << 17) | (((p >> 30) & 7) << 33)
+
+def corr_C15(ctx):
+    rng = ctx.rng
+    lines = []
+    for p in pts_ticks(ctx):
+        v = _field(p)
+        lines.append(gen.F("pts_to_ts", str(v)))
+        lines.append(gen.F("ts_to_pts", str(_f2b(p / 90e3))))
+    for _ in range(ctx.scale(300, 20000)):                     # arbitrary 40-bit fields (marker bits not set) and seconds
+        lines.append(gen.F("pts_to_ts", str(rng.getrandbits(rng.choice([40, 40, 48])))))
+        x = rng.choice([rng.random() * 95443.7, rng.randrange(0, 95443) + rng.choice([0.0, 0.5, 0.25]), rng.randrange(2 ** 33) / 90e3,
+                        (rng.randrange(2 ** 33) + 0.5) / 90e3, rng.random() * 1e6])
+        lines.append(gen.F("ts_to_pts", str(_f2b(x))))
+        lines.append(gen.F("ts_to_buf", str(_f2b(x))))
+    for k in range(0, 40):                                     # ties of round(): x.5 ticks are exactly representable here
+        lines.append(gen.F("ts_to_pts", str(_f2b((k + 0.5) / 90e3))))
+    for p in [0, 1, 2 ** 33 - 1] + [rng.randrange(2 ** 33) for _ in range(ctx.scale(50, 2000))]:
+        lines.append(gen.F("buf_to_ts", hexb(_field(p).to_bytes(5, "big"))))
+    for n in (0, 4, 6):
+        lines.append(gen.F("buf_to_ts", hexb(rng.bytes_(n))))
+    return lines
+
+def check_pts(args):
+    """the 33-bit tick count is laid out with the ISO 13818-1 marker bits and survives seconds and back"""
+    import AcraNetwork.MPEG.PES as pes
+    ticks = args["ticks"]
+    sp = _spec([gen.F("spec.PTS.field", str(p)) for p in ticks])
+    for p, s in zip(ticks, sp):
+        v = int(s[3:])
+        ts = pes.pts_to_ts(v)
+        if ts != p / 90e3:
+            return "pts_to_ts(%#x) = %r, but the field carries %d ticks = %r s" % (v, ts, p, p / 90e3)
+        back = pes.ts_to_pts(ts)
+        if back != v:
+            return "%d ticks: ts_to_pts(pts_to_ts(%#x)) = %#x (ISO 13818-1 layout of %d ticks is %#x)" % (p, v, back, p, v)
+        buf = pes.ts_to_buf(ts)
+        if buf != v.to_bytes(5, "big") or pes.buf_to_ts(buf) != ts:
+            return "%d ticks: ts_to_buf/buf_to_ts do not carry the 40-bit field big-endian" % p
+    return None
+
+ORACLES["mpeg_pts"] = check_pts
+
+def oracles_C15(ctx, hints):
+    t = pts_ticks(ctx)
+    fails = []
+    n = 0
+    for i in range(0, len(t), 500):
+        args = {"ticks": t[i:i + 500]}
+        n += len(args["ticks"])
+        w = check_pts(args)
+        if w:
+            # shrink to the single failing tick for the replay
+            for p in args["ticks"]:
+                if check_pts({"ticks": [p]}):
+                    args = {"ticks": [p]}
+                    break
+            fails.append(Failure("mpeg_pts", args, check_pts(args) or w, {"class": "PES", "check": "pts_roundtrip"}))
+            break
+    ctx.count("oracle_evaluations", n)
+    return fails
